@@ -27,6 +27,10 @@ class InjectedIOError(OSError):
     pass
 
 
+class InjectedVanish(FileNotFoundError):
+    """The file was removed between stat() and open()."""
+
+
 class SimFS:
     def __init__(self, root):
         self.root = os.path.realpath(root)
@@ -34,6 +38,7 @@ class SimFS:
         self.meta = {}       # abs path -> (mtime, ctime)
         self.now = 1_000_000_000.0
         self.fault_plan = {}  # kind -> call index (1-based) at which to fail
+        self.fault_flavour = "eio"
         self.calls = {}
         self.fds = set()
         self.ctx = None
@@ -99,6 +104,8 @@ class SimFS:
         if self.fault_plan.get(kind) == n:
             if self.ctx is not None:
                 self.ctx.fault("io_error_" + kind)
+            if self.fault_flavour == "enoent":
+                raise InjectedVanish(errno.ENOENT, "injected: file vanished before %s call %d" % (kind, n))
             raise InjectedIOError(errno.EIO, "injected %s failure at call %d" % (kind, n))
 
 
